@@ -154,7 +154,9 @@ def extremal_vectors(rnd, ver):
     return out
 
 
-ALPHABET = list("AVCPRUISNLHMXDEFOTWYGacvnlx:/. 0134_-+") + ["\t", "\n", "é", "А", "{", "}", '"', "\\", "\x00", "\U0001F600", "\u0661", "\uff10", "\uff11", "\u00a0", "\u2003"]
+ALPHABET = list("AVCPRUISNLHMXDEFOTWYGacvnlx:/. 0134_-+") + ["\t", "\n", "é", "А", "{", "}", '"', "\\", "\x00", "\U0001F600", "\u0661", "\uff10", "\uff11", "\u00a0", "\u2003",
+                                                                 # characters tied to ASCII letters by case folding / compatibility normalisation
+                                                                 "\u212a", "\u017f", "\u0130", "\u0131", "\uff21", "\uff41", "\ufb01", "\u00df"]
 
 
 # the version prefix contains a number: every leniency of a number parser is a way to accept what the grammar rejects
